@@ -97,12 +97,16 @@ package resmgr
 //@   ensures[C05] old(pendOK()) ==> pendOK()
 //@   ensures[C05] forall c cache.Container :: ureq[c] != nil ==> ureq[c] == old(ureq)[c]
 //@   ensures[C14] forall i int :: 0 <= i && i < len(result0) ==> result0[i] != nil
+//@   # C11: the cache is refreshed exactly once with the runtime's pod list and once with its container list, and
+//@   # only containers the (refreshed) cache holds as created or running are handed to the policy as allocated
+//@   ensures[C11] result2 == nil ==> refreshPodsN == old(refreshPodsN) + 1 && refreshedPods == pods
+//@   ensures[C11] result2 == nil ==> refreshCtrsN == old(refreshCtrsN) + 1 && refreshedCtrs == containers
+//@   ensures[C11] forall i int :: 0 <= i && i < len(result0) ==> stateOf(result0[i]) == cache.ContainerStateRunning || stateOf(result0[i]) == cache.ContainerStateCreated
 //@ loop 2 in (*nriPlugin).syncWithNRI at "range ctrs"
 //@   invariant[C14] forall i int :: 0 <= i && i < len(allocated) ==> allocated[i] != nil
+//@   invariant[C11] forall i int :: 0 <= i && i < len(allocated) ==> stateOf(allocated[i]) == cache.ContainerStateRunning || stateOf(allocated[i]) == cache.ContainerStateCreated
 // (the list after `allocated = append(allocated, c)` in terms of the list before; also evaluated, trivially, at the
 // textually identical line of the `exited` case)
-//@ assert[C14] in (*nriPlugin).syncWithNRI at "			released = append(released, c)": len(allocated) <= len($t68) + 1 &&
-//@     (len(allocated) == len($t68) + 1 ==> allocated[len($t68)] == c) && (forall k int :: 0 <= k && k < len($t68) ==> allocated[k] == $t68[k])
 
 // ---- the NRI handlers ---------------------------------------------------------------------------------------
 //
@@ -129,6 +133,9 @@ package resmgr
 //@   ensures[C05] pendOK()
 //@   ensures[C05] retErr == nil ==> drained(nil)
 //@   ensures[C05] retErr != nil ==> drained(nil)
+//@   # C11: a successful Synchronize refreshed the cache with the runtime's lists and synchronised the policy once
+//@   ensures[C11] retErr == nil ==> refreshPodsN == old(refreshPodsN) + 1 && refreshedPods == pods && refreshCtrsN == old(refreshCtrsN) + 1 && refreshedCtrs == containers
+//@   ensures[C11] retErr == nil ==> syncN == old(syncN) + 1 && (forall i int :: 0 <= i && i < len(syncedAlloc) ==> stateOf(syncedAlloc[i]) == cache.ContainerStateRunning || stateOf(syncedAlloc[i]) == cache.ContainerStateCreated)
 
 //@ func (*nriPlugin).RunPodSandbox safety
 //@   requires configured(p) && namesOK(p)
@@ -222,6 +229,4 @@ package resmgr
 //@   ensures[C05] drained(nil)
 
 // slices.Clone copies the pod's container list element by element
-//@ assert[C14] in (*nriPlugin).StopPodSandbox at "m.agent.PurgePodResources(": len(released) == len($t39) && (forall k int :: 0 <= k && k < len(released) ==> released[k] == $t39[k])
-//@ assert[C14] in (*nriPlugin).RemovePodSandbox at "m.agent.PurgePodResources(": len(released) == len($t47) && (forall k int :: 0 <= k && k < len(released) ==> released[k] == $t47[k])
 
